@@ -214,11 +214,15 @@ func H_C17_ignored() {
 		dir, _ := failFileName(name)
 		_ = vfsMkdirAll(dir, 0775)
 		for i := 0; i < nfiles; i++ {
-			shapes := nUnusable
-			if i > 0 {
-				shapes = 19 // a second file: the 19 named shapes (the truncations are covered as first file)
+			k := 0
+			if i == 0 {
+				k = choose("file0", nUnusable)
+			} else {
+				// a second file: six representative shapes (empty, other version, now passing, now
+				// invalid, now skipped, unreadable); every shape is covered as first file
+				k = []int{0, 5, 6, 7, 11, 14}[choose("file"+itoa(i), 6)]
 			}
-			content, unreadable := unusableFile(choose("file"+itoa(i), shapes), 0)
+			content, unreadable := unusableFile(k, 0)
 			p := filepath.Join(dir, kindaSafeFilename(name)+"-2026-"+itoa(i)+".fail")
 			vfs.files[p] = content
 			if unreadable {
